@@ -1,12 +1,21 @@
 pub mod c01;
+pub mod blendgrid;
 pub mod c02;
+pub mod c03;
+pub mod c0405;
 pub mod c06;
 pub mod c07;
 pub mod c08;
 pub mod c09;
 pub mod c10;
 pub mod c11;
+pub mod c13;
+pub mod c14;
+pub mod c15;
+pub mod c17;
+pub mod c18;
 pub mod c19;
+pub mod faults;
 pub mod selftest;
 
 use mc_core::explore::{Ctx, Tier};
@@ -21,12 +30,20 @@ pub fn run(prop: &str, tier: Tier, only: Option<(String, String)>) -> i32 {
     match prop {
         "C01" => c01::run(&mk("model_checking")),
         "C02" => c02::run(&mk("model_checking")),
+        "C03" => c03::run(&mk("model_checking")),
+        "C04" => c0405::run(&mk("fault_enumeration"), false),
+        "C05" => c0405::run(&mk("fault_enumeration"), true),
         "C06" => c06::run(&mk("model_checking")),
         "C07" => c07::run(&mk("model_checking")),
         "C08" => c08::run(&mk("model_checking")),
         "C09" => c09::run(&mk("model_checking")),
         "C10" => c10::run(&mk("model_checking")),
         "C11" => c11::run(&mk("model_checking")),
+        "C13" => c13::run(&mk("fault_enumeration")),
+        "C14" => c14::run(&mk("model_checking")),
+        "C15" => c15::run(&mk("exploration")),
+        "C17" => c17::run(&mk("model_checking")),
+        "C18" => c18::run(&mk("exploration")),
         "C19" => c19::run(&mk("model_checking")),
         _ => {
             eprintln!("unknown property {}", prop);
